@@ -65,6 +65,10 @@ def run(ctx):
     calls = (mon or {}).get("calls", 0)
     if mon:
         samples.append({"monitor_stats": mon["stats"], "hoeffding_eps": mon["eps"]})
+    from harness.props import tr31_common as t
+    tv, tcalls = t.threaded_wraps(ctx.rng, "fresh", rounds=1 if not ctx.thorough else 3)
+    viol += tv
+    calls += tcalls
     return {"evaluations": calls + len(lines) + len(cases), "distinct_nontrivial": calls, "samples": samples,
             "distribution": (mon or {}).get("stats", {}), "diffs": diffs, "violations": viol,
             "not_covered": ["that os.urandom itself is a cryptographic generator (OS), and freshness beyond the observed runs"],
